@@ -27,8 +27,11 @@
 
 use super::share::{Bad, Case, announce};
 use roto::{Constant, FileTree, Function, Item, Library, Module, NoCtx, Runtime, Type, Val, location};
+use roto::verif_hooks::c12::{Interned, intern};
 use rotov_harness::Report;
+use rotov_harness::driver::Driver;
 use serde_json::{Value, json};
+use std::collections::HashMap;
 use std::sync::{Arc, Barrier};
 
 fn short(e: impl std::fmt::Display) -> String {
@@ -102,6 +105,95 @@ fn compile_call(rt: &Runtime<NoCtx>, src: &str, x: u64) -> Result<u64, String> {
             "the compiler panicked: {}",
             p.downcast_ref::<String>().cloned().or_else(|| p.downcast_ref::<&str>().map(|s| s.to_string())).unwrap_or_default()
         )),
+    }
+}
+
+
+/// The interner itself, through the hook `verif_hooks::c12::intern` (= `Identifier::from(&str)`,
+/// what the parser and every registration function call): `n_threads` threads intern the same
+/// `texts` fresh texts at the same moment, round after round (even rounds in the same order, odd
+/// rounds each thread rotated). The observations `(text, identifier)` go to the VERIFIED checker
+/// `Intern.consistent` in the Lean driver (`interner_observations_consistent`: every schedule of
+/// the double-checked get-or-insert passes it); the text must round-trip.
+fn intern_race(c: &Case, variant: &str, n_threads: usize, rep: &mut Report) {
+    let rounds = (if c.thorough() { 60 } else { 24 }) * c.mult();
+    let texts = 160u64;
+    println!("PHASE {n_threads} threads intern {texts} fresh texts at the same moment, {rounds} rounds; observations to the verified checker");
+    let barrier = Barrier::new(n_threads);
+    let text_of = |round: u64, k: u64| format!("it{:x}i{}a{}r{}k{}", c.seed & 0xffff_ffff, c.index, c.attempt, round, k);
+    let got: Vec<Vec<(u64, u64, Interned)>> = std::thread::scope(|s| {
+        let hs: Vec<_> = (0..n_threads)
+            .map(|t| {
+                let barrier = &barrier;
+                let text_of = &text_of;
+                s.spawn(move || {
+                    let mut out = Vec::with_capacity((rounds * texts) as usize);
+                    for round in 0..rounds {
+                        let names: Vec<(u64, String)> = (0..texts)
+                            .map(|j| if round % 2 == 0 { j } else { (j + t as u64 * 7) % texts })
+                            .map(|k| (k, text_of(round, k)))
+                            .collect();
+                        barrier.wait();
+                        for (k, name) in &names {
+                            out.push((round, *k, intern(name)));
+                        }
+                    }
+                    out
+                })
+            })
+            .collect();
+        hs.into_iter().map(|h| h.join().unwrap_or_default()).collect()
+    });
+    // identifiers numbered by first occurrence; texts numbered by (round, k)
+    let mut ids: HashMap<Interned, u64> = HashMap::new();
+    let mut obs: Vec<(u64, u64)> = vec![];
+    let mut round_trip_bad = vec![];
+    for (t, per) in got.iter().enumerate() {
+        for (round, k, id) in per {
+            let n = ids.len() as u64;
+            let i = *ids.entry(*id).or_insert(n);
+            obs.push((round * texts + k, i));
+            if id.text() != text_of(*round, *k) && round_trip_bad.len() < 5 {
+                round_trip_bad.push(json!({"thread": t, "interned": text_of(*round, *k), "text_of_identifier": id.text()}));
+            }
+        }
+    }
+    rep.evaluations += obs.len() as u64;
+    *rep.histograms.entry("concurrent".into()).or_default().entry("internings".into()).or_insert(0) += obs.len() as u64;
+    obs.sort();
+    obs.dedup();
+    let mut drv = match Driver::spawn() {
+        Ok(d) => d,
+        Err(e) => {
+            rep.mismatch("share compile-race: the Lean driver did not start", json!({"case": c.json(), "error": format!("{e}")}));
+            return;
+        }
+    };
+    let words: Vec<String> = obs.iter().map(|(k, i)| format!("{k}:{i}")).collect();
+    let verdict = drv.ask(&format!("c12 intern {}", words.join(" ")));
+    rep.hist("interner-checker", verdict.split(' ').next().unwrap_or("?"));
+    if verdict.starts_with("inconsistent") || !round_trip_bad.is_empty() {
+        // the first text with two identifiers, for the report
+        let mut first: Option<Value> = None;
+        for w in obs.windows(2) {
+            if w[0].0 == w[1].0 {
+                let (round, k) = (w[0].0 / texts, w[0].0 % texts);
+                let holders = |i: u64| -> Vec<usize> {
+                    got.iter().enumerate().filter(|(_, per)| per.iter().any(|(r, kk, id)| *r == round && *kk == k && ids.get(id) == Some(&i))).map(|(t, _)| t).collect()
+                };
+                first = Some(json!({"text": text_of(round, k), "identifiers": [w[0].1, w[1].1], "threads_holding_the_first": holders(w[0].1), "threads_holding_the_second": holders(w[1].1)}));
+                break;
+            }
+        }
+        let two = obs.windows(2).filter(|w| w[0].0 == w[1].0).count();
+        rep.violation(
+            "threads that interned the same new identifier text at the same moment hold DIFFERENT identifiers for it (the verified checker Intern.consistent rejects the observations made on the real interner): name resolution compares identifiers, so a declaration and its use no longer match",
+            &format!("share-compile-race:interner-two-identifiers:{variant}"),
+            json!({"case": c.json(), "observed": {"variant": variant, "threads": n_threads, "rounds": rounds, "texts_per_round": texts, "checker": verdict,
+                   "texts_with_two_identifiers": two, "first": first, "text_round_trip": round_trip_bad}}),
+        );
+    } else if !verdict.starts_with("consistent") {
+        rep.mismatch("share compile-race: the driver did not understand the interner observations", json!({"case": c.json(), "answer": verdict}));
     }
 }
 
@@ -202,6 +294,7 @@ pub fn compile_race(c: &Case, rep: &mut Report) {
             json!({"case": case, "observed": {"variant": variant, "threads": n_threads, "rounds": rounds, "wrong": alone_bad, "first": observed}}),
         );
     }
+    intern_race(c, variant, n_threads, rep);
     rep.class(format!("share compile-race {variant} t={n_threads} names={names}"));
     rep.sample(json!({"case": case, "family": "compile-race", "variant": variant, "threads": n_threads, "rounds": rounds,
                       "names_per_script": names * 3 + ext * 2, "example_source": race_script(&tag_of(0), 0, 3, ext.min(1))}));
